@@ -26,6 +26,20 @@ def rules():
             ("restate", "", RestateSubtractionRule()), ("varmul", "", VariableMultiplyRule()), ("move", "", BalancedMoveRule())]
 
 
+def rules_reversed():
+    """the same eleven instances in the same order, but CONSTRUCTED last-to-first"""
+    from mathy_core.rules import (AssociativeSwapRule, BalancedMoveRule, CommutativeSwapRule, ConstantsSimplifyRule,
+                                  DistributiveFactorOutRule, DistributiveMultiplyRule, MultiplicativeInverseRule,
+                                  RestateSubtractionRule, VariableMultiplyRule)
+    makers = [("assoc", "", AssociativeSwapRule), ("comm", "pref", CommutativeSwapRule),
+              ("comm", "nopref", lambda: CommutativeSwapRule(preferred=False)), ("fold", "", ConstantsSimplifyRule),
+              ("factor", "", DistributiveFactorOutRule), ("factor", "consts", lambda: DistributiveFactorOutRule(constants=True)),
+              ("dist", "", DistributiveMultiplyRule), ("inverse", "", MultiplicativeInverseRule),
+              ("restate", "", RestateSubtractionRule), ("varmul", "", VariableMultiplyRule), ("move", "", BalancedMoveRule)]
+    built = [(n, o, m()) for n, o, m in reversed(makers)]
+    return list(reversed(built))
+
+
 RULE_INDEX = {(n, o): k for k, (n, o, _) in enumerate([("assoc", "", 0), ("comm", "pref", 0), ("comm", "nopref", 0), ("fold", "", 0),
                                                         ("factor", "", 0), ("factor", "consts", 0), ("dist", "", 0), ("inverse", "", 0),
                                                         ("restate", "", 0), ("varmul", "", 0), ("move", "", 0)])}
@@ -57,9 +71,39 @@ def slim(h):
     return h
 
 
+SHARE = "\u2261 "       # marker: equal subterms of the parsed tree share their ids, as a tree assembled with clone() does
+
+
 def parse(text):
     from mathy_core.parser import ExpressionParser
+    if text.startswith(SHARE):
+        tree = ExpressionParser().parse(text[len(SHARE):])
+        share_ids(tree)
+        return tree
     return ExpressionParser().parse(text)
+
+
+def share_ids(tree):
+    """give every subterm the ids of the first structurally equal subterm before it (what building it as first.clone() does)"""
+    first = {}
+    for n in inorder(tree):
+        key = json.dumps(project.term(n), sort_keys=True)
+        if key in first and first[key] is not n:
+            for a, b in zip(inorder_sub(first[key]), inorder_sub(n)):
+                b.id = a.id
+        else:
+            first.setdefault(key, n)
+
+
+def inorder_sub(node):
+    out = []
+
+    def rec(n):
+        if n is None:
+            return
+        rec(n.left); out.append(n); rec(n.right)
+    rec(node)
+    return out
 
 
 def step_event(t0, name, opt, rule, k, text=""):
@@ -98,6 +142,14 @@ def step_event(t0, name, opt, rule, k, text=""):
         return ev, None
     ev["ha"] = slim(project.snapshot(objs, [result_root]))
     ev["res"] = objs.of(result_root)
+    if k % 2 == 0:
+        # what a caller showing the result does first; reading must not change what str() gives afterwards
+        small = len(inorder(result_root)) <= 40
+        for f in (lambda: result_root.terminal_text, lambda: result_root.to_math_ml() if small else "", lambda: result_root.to_list(), lambda: result_root.terminal_text):
+            try:
+                f()
+            except BaseException:  # noqa
+                pass
     try:
         printed = str(result_root)
         ev["printed"] = printed
@@ -190,8 +242,19 @@ def reprobe_event(tree, persistent, text, after):
             out.append(row)
         return out
     used = answers(persistent)
-    fresh = answers(rules())
-    return {"typ": "reprobe", "rule": after, "opt": "", "text": text, "k": 0, "used": used, "fresh": fresh}
+    # brand-new objects, constructed in the opposite order (whatever a class remembers about "the last instance built" now differs)
+    fresh = answers(rules_reversed())
+    again = answers(persistent)
+    out = [{"typ": "reprobe", "rule": after, "opt": "", "text": text, "k": 0, "used": used, "fresh": fresh}]
+    if again != used:
+        out.append({"typ": "reprobe", "rule": "after-other-instances:" + after, "opt": "", "text": text, "k": 0, "used": again, "fresh": used})
+    # ... and asked in a process whose numpy error state is strict (np.seterr(all="raise")): the answer is a function of the tree only
+    import numpy as np
+    with np.errstate(all="raise"):
+        strict = answers(persistent)
+    if strict != used:
+        out.append({"typ": "reprobe", "rule": "numpy-error-state-raise:" + after, "opt": "", "text": text, "k": 0, "used": strict, "fresh": used})
+    return out
 
 
 _NOISE = [0]
@@ -229,7 +292,7 @@ def _events_for_text(job):
                 firsts.append((name, k, result_root, ev["printed"]))
             if want_probe and result_root is not None and ev["outcome"] == "ok":
                 try:
-                    out.append(reprobe_event(result_root, persistent, text, "%s@%d" % (name, k)))
+                    out.extend(reprobe_event(result_root, persistent, text, "%s@%d" % (name, k)))
                 except BaseException:  # noqa
                     pass
                 # the same application done IN PLACE on a tree every rule object has already been asked about:
@@ -245,7 +308,7 @@ def _events_for_text(job):
                                 pass
                     if rule.can_apply_to(nodes2[k]):
                         root2 = rule.apply_to(nodes2[k]).result.get_root()
-                        out.append(reprobe_event(root2, persistent, text, "inplace:%s@%d" % (name, k)))
+                        out.extend(reprobe_event(root2, persistent, text, "inplace:%s@%d" % (name, k)))
                 except BaseException:  # noqa
                     pass
                 # ... and with each surviving ancestor as the LAST node every rule object was asked about
@@ -286,14 +349,23 @@ def _events_for_text(job):
                         out.append({"typ": "reprobe", "rule": "inplace-ancestor:%s@%d" % (name, k), "opt": "", "text": text, "k": 0, "used": used, "fresh": fresh})
                 except BaseException:  # noqa
                     pass
+    if want_probe:
+        try:
+            out.extend(reprobe_event(t0.clone(), persistent, text, "start"))
+        except BaseException:  # noqa
+            pass
     if second and firsts:
         # a second step from some of the results, with the SAME rule objects (a two-step derivation)
         step = max(1, len(firsts) // 3)
-        for name1, k1, root1, printed1 in firsts[::step][:3]:
+        for name1, k1, root1, printed1 in (firsts[::step][:3] if second is True else firsts[:int(second)]):
             m = len(inorder(root1))
             if m > 40:
                 continue
             for name, opt, rule in persistent:
+                if want_probe:
+                    pe = probe_event(root1, name, opt, rule, "%s  =[%s@%d]=>  %s" % (text, name1, k1, printed1))
+                    pe["second"] = [text, name1, k1]
+                    out.append(pe)
                 for k in range(m):
                     ev, _ = step_event(root1, name, opt, rule, k, "%s  =[%s@%d]=>  %s" % (text, name1, k1, printed1))
                     if ev is not None:
@@ -341,6 +413,16 @@ FORMS = ["5 * (8h * t)", "(7 * 10y^3) * x", "(7q * 10y^3) * x", "792z^4 * 490f *
          "(y + 2x) + (3x + z)", "(4 + x^2) + (x^2 + y)", "(y + -x) + (-x + 1)", "(y + 12x) + (8x + z)",
          "4 + -2x^3", "y + -3x^2", "2x + -0.5x^2", "(x + 1) + -4y^3", "-(3 + 2)", "-(4 * 2)", "-(2 - 5)", "-(6 / 4)", "-(2 ^ 3)", "x + -(3 * 0.5)", "-(0 + 0)",
          "x^0 * x^2", "x^(2 - 2) * x^3", "x^0 + x^0", "0x + 0x", "1x * 1x", "-x * -x", "-x + -x", "x^-1 * x", "2x^-2 * 3x^2"]
+# trees only a rewrite can produce (the grammar has no literal for them): a folded division by zero leaves a nan / inf coefficient
+UNDEF_FORMS = ["(4 / 0)x + 2x", "(0 / 0)x + 3x", "2x + (4 / 0)x", "(4 / 0) + 2", "(4 / 0)x^2 + 2x^2", "(4 / 0)x * 2x", "(1 / 0) * 3", "x * (4 / 0) * x", "(4 / 0)x = 2",
+               "(4 / 0)x + 2 = 3", "-(4 / 0) + x", "(4 / 0)x - 2x", "(4 / 0)^2 + 1", "(2 - 2) * x + 2x", "(0 * 3)x + 2x", "0x + 0x", "(5 - 5)x^2 + (1 - 1)x^2"]
+# trees in which a subterm and its copy carry the same ids (built with clone(); several rules build such trees themselves)
+SHARED_ID_FORMS = [SHARE + t for t in ["(2y + z) + 2y", "2y + (z + 2y)", "4x + 4x", "4x + y + 4x", "(x + 1) * (x + 1)", "x * y * x", "2x^2 + 3 + 2x^2", "x + x + x", "(x + 2) + (x + 2)",
+                                       "3 * x + 3 * x", "2 * 3 + 2 * 3", "x - x", "-x + -x", "x^2 * x^2", "(a + b) * c + (a + b) * d", "7 + x + 7"]]
+# equations whose first fold leaves a numpy scalar (np.float64(0.0), np.float64(4.0)) as a coefficient: the grammar cannot write those
+NUMPY_ZERO_EQ_FORMS = ["0^0.5 * x = 0", "(0.0^2)x = 0", "(0^1.5)x = 3", "x * 0^0.5 = 2", "(0^0.5)x + 2 = 2", "(4^0.5)x = 6", "(2^2.0)x = 8", "(0.5^2 - 0.25)x = 1", "(1.5 - 1.5)x = 0", "(2.0^0.5 * 0)x = 0"]
+SHARED_ID_EQ_FORMS = [SHARE + t for t in ["(2y + z) + 2y = 10", "2y + (z + 2y) = 10", "x + x = 4", "2x + 3 + 2x = 7", "(x + 1) + (x + 1) = 6", "4x + y + 4x = 2", "x = x", "2x + 1 = 2x + 1",
+                                          "10 = (2y + z) + 2y", "y + 3 + y = y + 3", "3 + x + 3 = 3", "2x * 2x = 16", "x + 2 = 2 + x"]]
 EQ_FORMS = ["x + 1 = y = 3", "x = y + 2 = 5", "2x = 4 = y + 1", "0.00000000001x = 2", "0.0000001x = 3", "y + 4x * 2X^2 = 7", "3x + 4X = 7", "x + -2y^2 = 3", "7 = 4x + -y^3", "-2x^2 + 1 = 9", "x + -0.5y^3 = 2", "2 * ((x + 1) + 5) = 20", "((x + 1) + 5)^2 = 4", "-((x + 1) + 5) = 3", "4 - ((x + 1) + y) = 0",
             "((x + 1) + 5) / 2 = y", "sgn((x + 1) + 2) = 1", "3x = 6 + 9y", "7 = 2 + 4x + y", "a + (3b + c) = 9", "7 = x + 2 + y", "y + (x + 2) = 7", "3 = x + 2 + 7",
             "2 * 3x = 12", "(2 * 3)x = 12", "x + 2 = 5", "3y + x = 7 + 2x", "2x + 3x = 10", "x * x = 4", "0.5x = 0.25", "-3x = 9", "x / 2 + 1 = 3", "2(x + 1) + 3 = 9"]
